@@ -58,6 +58,9 @@ CLAIMED['C36'] = ("metamorphic check of the real GetFingerprint: every variant o
 CLAIMED['C31'] = ("every sequence of k<=4 prepare / commit / delete operations over two namespaces on the real Manager (ReloadNamespacePrepare/Commit, DeleteNamespace, GetNamespace, user managers): after every operation the live configuration version and the credentials of every namespace equal the specification (last committed, deleted stays deleted)",
     "bounded enumeration of operation sequences by the engine's choice points (the state is discrete: almost no solver queries are involved, which is what the evidence shows); NewNamespace/Close are light fakes (mockey natively); administrators are sequential, the reader-sees-one-generation clause (switchIndex versus the two arrays under concurrency) is not covered; the shared standby generation is known finding C31-shared-standby-generation")
 
+CLAIMED['C17'] = ("the pieces returned by the real SplitStatementToPieces (which runs the real lexer, executed from SSA with symbolic bytes) equal a MySQL lexical reference splitter in number and text, for texts P1;P2[;] whose pieces are plain statements, string / quoted-identifier / comment forms, empty or blank, with a 1..2-byte symbolic insert over {; ' \" ` \\ * / newline a}",
+    "template texts only (two pieces, one symbolic insert); keyword/identifier lexing beyond the templates and multi-byte characters are outside the bound; doMultiStmts' stop-at-first-failure loop is not covered; known finding C17-blank-before-single-semicolon")
+
 NA_REASON = "check not built yet (work in progress; see DESIGN.md section 3 for the planned harness)"
 NA = {}
 
